@@ -12,6 +12,6 @@ CONSTANTS
   TextLens <- L_05
   DataLens <- L_04
   MediaLens <- L_7
-  SseCounts <- S_02
+  SseScripts <- S_all
   PresetCLs <- CL_3
 INVARIANT Emit
